@@ -429,12 +429,19 @@ def expand_fn(args, sections, unit_file, out, stats):
         elif kind in ("before", "after"):
             s_, e_ = find_anchor(src, fn.body_open, fn.body_close, arg, f"fn {name}")
             ed.insert(s_ if kind == "before" else e_, "\n" + text + "\n", origin)
-        elif kind == "replace":
+        elif kind in ("replace", "replace?"):
             m = re.match(r'^(.*)\s+sha=([0-9a-f]+)$', arg, re.S)
             if not m:
                 raise ExtractError(f"{unit_file}:{uline}: replace needs sha=")
             anchor, sha = m.group(1), m.group(2)
-            s_, e_ = find_anchor(src, fn.start, fn.body_close, anchor, f"fn {name}")
+            try:
+                s_, e_ = find_anchor(src, fn.start, fn.body_close, anchor, f"fn {name}")
+            except ExtractError:
+                if kind == "replace?":
+                    # optional shim (R7): the expression is gone, so there is nothing to replace; the body is
+                    # verified as it stands
+                    continue
+                raise
             got = hashlib.sha256(re.sub(r"\s+", "", src.text[s_:e_]).encode()).hexdigest()[:len(sha)]
             if got != sha:
                 raise ExtractError(f"{relpath}: pinned statement in fn {name} changed (sha {got} != {sha})")
@@ -533,7 +540,7 @@ def expand_unit(unit_path, stats=None):
                     body = s2[3:]
                     kind = body.split(None, 1)[0]
                     arg = body[len(kind):].strip()
-                    if kind in ("before", "after", "replace"):
+                    if kind in ("before", "after", "replace", "replace?"):
                         m = re.match(r'^"((?:[^"\\]|\\.)*)"(.*)$', arg, re.S)
                         if not m:
                             raise ExtractError(f"{unit_file}:{i+1}: anchor must be quoted")
